@@ -198,7 +198,7 @@ V("v_tilemap_tile", "tilemap", "TilemapData::tile(x,y) == Some(tiles[y*w+x]) iff
   ["tilemap::TilemapData::tile", "tilemap::TilemapData::width", "tilemap::TilemapData::height"], fn="tile", witness="x_tilemap_views")
 V("v_tile_slice", "tilemap", "tile_slice(pixels, size, id) == pixels[id*area .. (id+1)*area] under (id+1)*area <= len; no overflow", ["file::tile_slice"], fn="tile_slice", witness="x_tilemap_views")
 V("v_pixels_per_tile", "tilemap", "TileSize::pixels_per_tile == w*h without u32 overflow", ["tileset::TileSize::pixels_per_tile", "tileset::TileSize::width", "tileset::TileSize::height"], fn="pixels_per_tile")
-V("v_write_tilemap_cel", "tilemap", "write_tilemap_cel_to_image under R-pre (tiles.len()==w*h, every tile inside the tileset pixels, canvas <= 65535^2): every index in bounds, no i32/i64/usize overflow for ANY 16-bit map and tile size and offset, get/put_pixel in range, canvas size unchanged",
+V("v_write_tilemap_cel", "tilemap", "write_tilemap_cel_to_image under R-pre (tiles.len()==w*h, every tile inside the tileset pixels, canvas <= 65535^2), unbounded: every canvas pixel d=(X-cel.x, Y-cel.y) inside the tile grid == blend(mode, old pixel, tileset pixel [tiles[(dy/th)*w + dx/tw].id * tw*th + (dy%th)*tw + dx%tw], round8(layer opacity, cel opacity)), every other pixel unchanged (each canvas pixel is written exactly once); every index in bounds, no i32/i64/usize overflow for ANY 16-bit map and tile size and offset; canvas size unchanged",
   ["file::write_tilemap_cel_to_image", "tileset::Tileset::tile_size"], fn="write_tilemap_cel_to_image", witness="x_usable_after_load")
 
 V("v_is_visible", "visible", "Layer::is_visible == own visible flag && the flags of ALL ancestors (spec_visible), for every layer table satisfying the parent contract; terminates because a parent id is smaller than its child's",
@@ -335,7 +335,7 @@ prop("C06", "proof", ["v_indexed_as_rgba", "v_gray_into_rgba", "v_is_background"
      "Pixel conversions proved for all values; cel header / raw payload decode on fixed sizes; placement + alpha scaling is the Verus rasteriser contract; zlib storage, linked cels and the transparent-index rule end-to-end are bounded-exec against the composition spec.")
 prop("C07", "exploration", ["v_read_aseprite", "v_parse_frame", "v_celsdata_add_cel", "k_parse_chunk_type", "k_layer_chunk_24", "k_tileset_head_44", "x_neutral_encodings", "x_cel_order_irrelevant"],
      "Mostly glue and zlib: bounded exploration over seeded models x ~30 encoding choices; contract part: ignorable chunk codes map to the three ignorable kinds (all u16), trailing payload bytes do not change a decoder's result (layer / tileset shapes with slack bytes).")
-prop("C08", "proof", ["v_dec_tilemap", "v_dec_bitmask", "v_dec_tileset", "k_tile_parse", "k_tile_bitmask_header", "k_tilemap_bits", "k_pixels_per_tile", "v_tilemap_tile", "v_tilemap_lookup", "v_tile_offsets", "v_tile_slice", "v_pixels_per_tile", "v_write_tilemap_cel", "x_tilemap_views"],
+prop("C08", "proof", ["v_write_tilemap_cel", "v_dec_tilemap", "v_dec_bitmask", "v_dec_tileset", "k_tile_parse", "k_tile_bitmask_header", "k_tilemap_bits", "k_pixels_per_tile", "v_tilemap_tile", "v_tilemap_lookup", "v_tile_offsets", "v_tile_slice", "v_pixels_per_tile", "v_write_tilemap_cel", "x_tilemap_views"],
      "Tile word decode, tile lookup and tile slicing are contracts over unbounded sizes; the Tilemap / Tileset views need a loaded sprite and are compared with each other and with the model on seeded sprites.")
 prop("C09", "proof", ["v_compute_parents", "v_from_vec", "v_is_visible", "x_forest_exhaustive"],
      "compute_parents is proved by Verus on the real text for ALL layer sequences (any length, any depth) whose first level is 0 - the forests of the property are a subset; from_vec establishes that precondition; Layer::is_visible is proved equal to 'own flag and all ancestors' flags' for every table satisfying the parent contract. Layer::parent and the compositing gate are exhaustively executed for every forest of up to 6 (quick) / 8 (thorough) layers and every flag assignment.")
@@ -352,7 +352,7 @@ prop("C15", "proof", ["v_read_aseprite", "v_parse_pixel_format", "v_dec_colorpro
 prop("C16", "other", ["s_send_sync", "x_determinism", "v_write_raw_cel", "v_write_tilemap_cel", "v_tile_slice", "v_pixels_per_tile", "v_compute_parents", "k_mul_un8", "k_blend8", "k_merge", "k_normal_r", "k_normal_g", "k_normal_b", "k_pixel_count", "k_pixels_per_tile"],
      "(a) Send + Sync: discharged by rustc's trait solver. (b) no result depends on wrapping arithmetic: the overflow obligations of the Verus units (unbounded) and of the Kani blend leaves. (c) determinism / repeat / permute / 16 threads: sanity stand-in only - interleavings are NOT explored (Kani has no threads; Verus would need its permission types in the real code); the schedule quantifier rests on Rust's Sync + &self guarantee.")
 prop("C17", "proof", ["k_mul_un8", "k_blend8", "k_merge", "k_normal_alpha", "k_pack_i32", "k_pack_f64", "k_ch_soft_light_range", "k_blender"] + ["k_law_" + m for m in ALL_MODES] + ["k_normal_r", "k_normal_g", "k_normal_b"]
-     + ["k_ch_" + m for m in ["multiply", "screen", "overlay", "darken", "lighten", "color_dodge", "color_burn", "hard_light", "difference", "exclusion", "divide"]] + ["k_mode_addition", "k_mode_subtract", "x_hsl_kernels", "x_blend_public_api"],
-     "The three laws are proved for all 19 modes (HSL included: alpha never flows through f64) from the contracts of normal / merge with every other callee uninterpreted. Range clause: integer modes via the leaf contracts (reference value in 0..=255 and equal to the truncated result) and normal's full-domain safety; soft light range proved; HSL packed range only bounded-exec.")
+     + ["k_ch_" + m for m in ["multiply", "screen", "overlay", "darken", "lighten", "color_dodge", "color_burn", "hard_light", "difference", "exclusion", "divide"]] + ["k_mode_addition", "k_mode_subtract", "x_hsl_kernels", "x_blend_public_api", "v_write_raw_cel", "v_write_tilemap_cel"],
+     "Observation point Frame::image: both rasterisers are proved (Verus, real text) to hand every source pixel to the blend function with the opacity product round8(layer, cel) and to write its result unchanged, so the laws of the blend functions carry over to frame images. The three laws are proved for all 19 modes (HSL included: alpha never flows through f64) from the contracts of normal / merge with every other callee uninterpreted. Range clause: integer modes via the leaf contracts (reference value in 0..=255 and equal to the truncated result) and normal's full-domain safety; soft light range proved; HSL packed range only bounded-exec.")
 prop("C18", "exploration", ["x_utils"], "util.rs uses iterator chains and IntMap; bounded-exec on all sizes 1..8 x 1..8 plus seeded sizes and palettes.")
 prop("C19", "proof", ROUTES_V + ["x_routes", "x_frames_vs_spec"], "The three routes (AsepriteFile::cel, Frame::layer, Layer::frame) and the cel accessors frame / layer / is_empty are Verus contracts on the real text: all three construct the cel id (frame, layer) of the same file, so coordinates and emptiness agree by construction (swapped arguments fail the postcondition). Offset, user data and images go through the cel table and the renderer: compared on seeded sprites with frames != layers; single-visible-layer frame == cel image and tilemap image == cel image are bounded-exec.")
